@@ -5,7 +5,7 @@ import NfpmModel.Ar
   names and link names of at most 100 bytes, numeric fields that fit their octal width.
 
     block (512 bytes)  name[100] mode[8] uid[8] gid[8] size[12] mtime[12] chksum[8] typeflag[1] linkname[100]
-                       magic[6]="ustar " version[2]=" \0" uname[32] gname[32] devmajor[8] devminor[8] zeros[167]
+                       magic[6] version[2] ("ustar " " \0" GNU, "ustar\0" "00" USTAR) uname[32] gname[32] devmajor[8] devminor[8] zeros[167]
     strings            copied, NUL-filled;  numbers: leading-zero octal, one digit less than the field, then NUL
     chksum             sum of all 512 bytes with the chksum field read as 8 blanks: six octal digits, NUL, blank
     member             header block, body, zero padding to the next 512-byte boundary
@@ -29,7 +29,20 @@ def octFixed : Nat → Nat → Bytes
 /-- formatter.formatOctal: `w - 1` octal digits with leading zeros, then NUL (guard: n < 8^(w-1)) -/
 def octField (w : Nat) (n : Nat) : Bytes := octFixed (w - 1) n ++ [0]
 
+/-- GNU (deb, ipk: Format: tar.FormatGNU) or USTAR (archlinux and apk members that need no PAX record) -/
+inductive Flavor | gnu | ustar
+deriving DecidableEq, Repr
+
+def Flavor.magic : Flavor → Bytes
+  | .gnu => b!"ustar "
+  | .ustar => [117, 115, 116, 97, 114, 0]      -- "ustar\0"
+
+def Flavor.version : Flavor → Bytes
+  | .gnu => [32, 0]
+  | .ustar => b!"00"
+
 structure Hdr where
+  flavor : Flavor := .gnu
   name : Bytes
   mode : Nat := 0
   uid : Nat := 0
@@ -45,7 +58,7 @@ deriving DecidableEq, Repr
 /-- the sixteen fields of a header block, the checksum field given -/
 def fields (h : Hdr) (chk : Bytes) : List Bytes :=
   [ strField 100 h.name, octField 8 h.mode, octField 8 h.uid, octField 8 h.gid, octField 12 h.size, octField 12 h.mtime,
-    chk, [h.typeflag], strField 100 h.linkname, b!"ustar ", [32, 0], strField 32 h.uname, strField 32 h.gname,
+    chk, [h.typeflag], strField 100 h.linkname, h.flavor.magic, h.flavor.version, strField 32 h.uname, strField 32 h.gname,
     octField 8 0, octField 8 0, zeros 167 ]
 
 def byteSum (b : Bytes) : Nat := (b.map (·.toNat)).sum
@@ -90,14 +103,15 @@ def slice (b : Bytes) (off len : Nat) : Bytes := (b.drop off).take len
 /-- parse one 512-byte header block, verifying magic and checksum -/
 def readHeader (blk : Bytes) : Option Hdr :=
   if blk.length ≠ 512 then none
-  else if slice blk 257 6 ≠ b!"ustar " then none
+  else if slice blk 257 6 ≠ Flavor.gnu.magic ∧ slice blk 257 6 ≠ Flavor.ustar.magic then none
   else
     let blank := blk.take 148 ++ List.replicate 8 32 ++ blk.drop 156
     match readOct (slice blk 148 8), readOct (slice blk 100 8), readOct (slice blk 108 8), readOct (slice blk 116 8),
           readOct (slice blk 124 12), readOct (slice blk 136 12) with
     | some chk, some mode, some uid, some gid, some size, some mtime =>
       if chk ≠ byteSum blank then none
-      else some { name := readStr (slice blk 0 100), mode, uid, gid, size, mtime,
+      else some { flavor := if slice blk 257 6 = Flavor.gnu.magic then .gnu else .ustar,
+                  name := readStr (slice blk 0 100), mode, uid, gid, size, mtime,
                   typeflag := (slice blk 156 1).headD 0, linkname := readStr (slice blk 157 100),
                   uname := readStr (slice blk 265 32), gname := readStr (slice blk 297 32) }
     | _, _, _, _, _, _ => none
